@@ -93,6 +93,8 @@ func main() {
 		verbose := fs.Bool("v", false, "verbose")
 		fs.Parse(os.Args[2:])
 		os.Exit(runJobs(*job, *out, *only, *verbose))
+	case "lemmas":
+		os.Exit(lemmaSelfCheck())
 	default:
 		fmt.Fprintln(os.Stderr, "unknown command", os.Args[1])
 		os.Exit(2)
